@@ -18,7 +18,7 @@ RULE = (
     "joined by at least one link; the multiset of arrowed edges (from,to) equals the multiset of (index(v1), "
     "index(v2)) over directed-family links with both ends members; an arrow-less edge implies a non-directed link "
     "joining that pair; every link with both ends members (self-loops included) leaves its pair joined by >= 1 edge. "
-    "Each case exports two universes over the same vertices one after the other (the second contains members linked to non-members that were members of the first) and requires that no vertex gained an attribute.  Non-trivial = >= 1 directed and >= 1 undirected internal link, or an internal self-loop, or a link leaving the "
+    "Each case exports two universes over the same vertices one after the other (the second contains members linked to non-members that were members of the first) and requires that no vertex gained an attribute; then the first universe is exported again after a member left from the vertex side, another joined and the label attributes changed.  Non-trivial = >= 1 directed and >= 1 undirected internal link, or an internal self-loop, or a link leaving the "
     "universe; distinct = distinct case value."
 )
 ASSUMPTIONS = [
@@ -58,6 +58,10 @@ def check_case(case):
     require([sorted(vars(v)) for v in vs] == attrs_before, "export-left-attribute", "a vertex gained or lost an attribute during make_pyvis_net")
     info2 = _check_export(case, vs, ls, u2)
     require([sorted(vars(v)) for v in vs] == attrs_before, "export-left-attribute", "a vertex gained or lost an attribute during the second export")
+    # third export: the FIRST universe again after its membership changed from the vertex side and labels changed
+    if render.perturb(case, vs, ls, u):
+        _check_export(case, vs, ls, u)
+        require([sorted(vars(v)) for v in vs] == attrs_before, "export-left-attribute", "a vertex gained or lost an attribute during the third export")
     info["classes"] = sorted(set(info["classes"]) | {"second-export:" + c for c in info2["classes"] if c in ("link-leaving-universe",)})
     return info
 
